@@ -256,6 +256,15 @@ def calculate_circle_center(vertices, method: str="dlite") -> Tuple:
         xs = [v.x for v in vertices]
         ys = [v.y for v in vertices]
 
+        if len(xs) > 2 and method in ("dlite", "taubinSVD"):
+            # collinear points have no finite circle and the fits can stall on the line
+            # itself: return a far centre on the normal through the midpoint instead
+            dx, dy = xs[-1] - xs[0], ys[-1] - ys[0]
+            chord2 = dx * dx + dy * dy
+            offsets = [(x - xs[0]) * dy - (y - ys[0]) * dx for x, y in zip(xs, ys)]
+            if chord2 > 0 and max(abs(o) for o in offsets) <= 1e-12 * chord2:
+                return np.mean(xs) - 1e8 * dy, np.mean(ys) + 1e8 * dx
+
         if method == "dlite":
             center = dlite_circle_method(xs, ys)
         elif method == "taubinSVD":
